@@ -305,9 +305,10 @@ class Emulsion(list):
                 this array are modified, it will be reflected in the droplets.
         """
         data = self.data  # create an array with all the droplet data
-        # link back to droplets
+        # link back to droplets using records, which support access by attributes
+        records = data.view(np.recarray)
         for i, d in enumerate(self):
-            d.data = data[i]
+            d.data = records[i]
         return data
 
     @classmethod
